@@ -41,25 +41,14 @@ pub enum Oem {
 impl OemCpConverter for Oem {
     fn decode(&self, b: u8) -> char {
         match self {
-            Oem::Lossy => {
-                if b <= 0x7F {
-                    char::from(b)
-                } else {
-                    '\u{FFFD}'
-                }
-            }
+            // the library's own default converter (what a user gets who sets none); the specification says what it must do
+            Oem::Lossy => fatfs::LossyOemCpConverter::new().decode(b),
             Oem::Latin1 => char::from(b),
         }
     }
     fn encode(&self, c: char) -> Option<u8> {
         match self {
-            Oem::Lossy => {
-                if c <= '\x7F' {
-                    Some(c as u8)
-                } else {
-                    None
-                }
-            }
+            Oem::Lossy => fatfs::LossyOemCpConverter::new().encode(c),
             Oem::Latin1 => {
                 if (c as u32) <= 0xFF {
                     Some(c as u8)
@@ -870,12 +859,26 @@ impl<'a> Sess<'a> {
                 m.insert("ft".into(), json!(ft_num(self.fs.fat_type())));
                 m.insert("cs".into(), json!(self.fs.cluster_size()));
                 m.insert("volid".into(), json!(self.fs.volume_id()));
+                m.insert("vid".into(), json!([self.fs.volume_id() & 0xFFFF, self.fs.volume_id() >> 16]));
                 m.insert("label".into(), json!(self.fs.volume_label_as_bytes()));
                 #[cfg(feature = "has_alloc")]
                 m.insert("labels".into(), json!(units(&self.fs.volume_label())));
                 match self.fs.read_volume_label_from_root_dir_as_bytes() {
                     Ok(Some(l)) => {
                         m.insert("rlabel".into(), json!(l));
+                        // the String-returning variant must name the same entry
+                        #[cfg(feature = "has_alloc")]
+                        match self.fs.read_volume_label_from_root_dir() {
+                            Ok(Some(s)) => {
+                                m.insert("rlabels".into(), json!(units(&s)));
+                            }
+                            Ok(None) => {
+                                m.insert("rlabels".into(), json!("none"));
+                            }
+                            Err(e) => {
+                                return (Value::Object(a), err_json(&e));
+                            }
+                        }
                     }
                     Ok(None) => {
                         m.insert("rlabel".into(), json!([]));
